@@ -214,7 +214,7 @@ def string_unit(arg):
 def run(ctx):
     rep = Report('C12', 'model_checking')
     subs = SUBS_QUICK if ctx.quick else SUBS_THOROUGH
-    budget = 250 if ctx.quick else 2400
+    budget = 600 if ctx.quick else 3000
     sunits = [(name, subs, budget) for name in shapes()]
     N = 4 if ctx.quick else 5
     alpha = parsex.ALPHABETS[('standard', 'reduced')]
